@@ -15,7 +15,7 @@ pub fn def() -> PropDef {
         strum_features: &["derive"],
         profiles: &["dev"],
         rule: "programs: for N=0..Nmax variants, every subset of disabled positions x every set of <=k deviations \
-               (variant kind in {tuple1,tuple2,named1,named2}, generics <T>, <U,V,const Y>, where-clause); per program the \
+               (variant kind in {tuple1,tuple2,named1,named2}, other strum attributes next to `disabled` in the same / a separate list, generics <T>, <U,V,const Y>, where-clause); per program the \
                forward traversal, the reverse traversal, count() and COUNT are compared with R-enabled. A case is \
                non-trivial when the program has a disabled variant, a data variant or a generic parameter; distinct = \
                distinct (program, traversal) pairs",
@@ -63,6 +63,26 @@ pub fn programs(tier: Tier) -> ProgramSet {
                         true
                     }));
                 }
+            }
+            // other strum attributes sharing the variant (and, with Layout::Single, the attribute list) with `disabled`
+            for i in 0..n {
+                devs.push(dev(format!("v{}.serialize=\"x\"+message", i), &[&format!("attr{}", i)], move |s| {
+                    s.variants[i].serialize.push("x".into());
+                    s.variants[i].message = Some("m".into());
+                    true
+                }));
+                devs.push(dev(format!("v{}.to_string=\"t\" (split lists)", i), &[&format!("attr{}", i)], move |s| {
+                    s.variants[i].to_string = Some("t".into());
+                    s.variants[i].layout = Layout::Split;
+                    true
+                }));
+            }
+            for i in 0..n {
+                devs.push(dev(format!("v{}: doc comment + #[allow(dead_code)]", i), &[&format!("nonstrum{}", i)], move |s| {
+                    s.variants[i].docs.push((" documented".into(), DocForm::Comment));
+                    s.variants[i].extra_attrs.push("#[allow(dead_code)]".into());
+                    true
+                }));
             }
             devs.push(dev("generic<T: Default>", &["gen"], |s| {
                 s.generics = vec![Generic::Type { name: "T".into(), bounds: "Default".into() }];
